@@ -12,6 +12,7 @@ EXPLANATION = (
     "from pager.rs and the WAL page-replay helper. Page-content correctness is not decided."
     " C18.3: the B-tree reachability walk used by vacuum calls every primitive pointer accessor of an index page (the per-cell one inside a loop) and queues each result."
     " C18.4: every Pager method that sets an allocation bit also assigns Meta.next_page_id."
+    " C18.5 (shared with C02.5): each success return after an allocation-bit change passes through flush_meta_and_bitmap — a page marked allocated only in memory is free again after reopen and is handed to another structure while it still holds live data."
 )
 
 TRANSPARENT = ("nervusdb_storage::pager::PageId::new", "nervusdb_storage::pager::PageId::as_u64", "core::convert::From::from",
@@ -89,6 +90,8 @@ class Summ:
 
 
 def run(ctx):
+    from .c02 import _bitmap_flush_rule
+    _bitmap_flush_rule(ctx, "C18.5")
     F = ctx.facts
     ctx.rule("C18.1", "no page address passed to write_page / ensure_allocated derives from arithmetic on a page number")
     ctx.rule("C18.2", "Pager::ensure_allocated is called only from pager.rs and wal::apply_op")
